@@ -40,7 +40,8 @@ class Case:
 class Mutant:
     """In-memory mutant of the extracted AST of a real function (engine self-test: must be refuted)."""
 
-    def __init__(self, name, qualname, transform, only_harness=None, max_cases=None):
+    def __init__(self, name, qualname, transform, only_harness=None, max_cases=None, only_label=None):
+        self.only_label = only_label  # substring of the case label (in addition to only_harness)
         self.name = name
         self.qualname = qualname
         self.transform = transform
